@@ -16,10 +16,10 @@
   Hypotheses of the ties that stay visible: `hcount` (the constructor has enforced the number of fill ratios), `hpow`
   (`np.power(P, alpha)` read as `exp (alpha * log P)`), `hP`/`hT` (profile lengths); the tie's `x + 0 = x` holds in ℝ.
 
-  Not restated (no tie):
-  * `lookup_row`: `getGasMixProfile` (`get_gas_mix_profile`, which indexes the optional result of the
-    `activeGasMixProfile` / `inactiveGasMixProfile` properties by `list.index`) is not translated;
-  * nothing else of Props/C10.lean.  (`chemistry_valid` is restated as `src_chemistry_valid`: the loop of
+  Not restated (no tie): nothing of Props/C10.lean.  (`lookup_row` is restated as `src_lookup_row` since
+  `get_gas_mix_profile` and the `@property` getters it reads are translated: `srcLookup gases avail mix g` is the regenerated
+  `get_gas_mix_profile(g)` on the object state the regenerated `determine_active_inactive` leaves, with `mixProfile = mix`;
+  `Except.error "KeyError"` = the `KeyError` of the code.)  (`chemistry_valid` is restated as `src_chemistry_valid`: the loop of
     `initialize_chemistry` over the gas OBJECTS is tied with the profiles as parameters (`gasMix`); the theorem feeds it
     the profiles the regenerated `initialize_profile` of every gas returns.)
 
@@ -372,6 +372,31 @@ theorem src_partition_perm (gases avail : List String) :
   rw [src_determine_active_inactive]
   simp only [maskOf_ite]
   exact partition_perm gases avail
+
+/-- the regenerated `get_gas_mix_profile(g)` on a chemistry object whose active / inactive attributes are what the
+    regenerated `determine_active_inactive` leaves and whose `mixProfile` is the 2-D array `mix` -/
+def srcLookup {β : Type} (gases avail : List String) (mix : List (List β)) (g : String) : Except String (List β) :=
+  Gen.SrcC10.get_gas_mix_profile g (srcSplit gases avail).1 (srcSplit gases avail).2.1 (srcSplit gases avail).2.2.1
+    (srcSplit gases avail).2.2.2 (some mix)
+
+theorem srcLookup_eq {β : Type} (gases avail : List String) (mix : List (List β)) (g : String) :
+    srcLookup gases avail mix g = (getGasMixProfile gases avail mix g).elim (Except.error "KeyError") Except.ok :=
+  src_get_gas_mix_profile gases avail mix g
+
+/-- **`get_gas_mix_profile(g)` is the row of `g` in `mixProfile`** (row index = position of `g` in the gas list) and a
+    `KeyError` exactly for unknown names — about the regenerated `get_gas_mix_profile`, its getters and
+    `determine_active_inactive` (none of the other exceptions of the translated text can occur) -/
+theorem src_lookup_row {β : Type} (gases avail : List String) (mix : List (List β)) (g : String) :
+    (g ∈ gases → srcLookup gases avail mix g = Except.ok (mix.getD (gases.idxOf g) [])) ∧
+    (g ∉ gases → srcLookup gases avail mix g = Except.error "KeyError") := by
+  rw [srcLookup_eq]
+  obtain ⟨h1, h2⟩ := lookup_row gases avail mix g
+  exact ⟨fun hg => by rw [h1 hg]; rfl, fun hg => by rw [h2 hg]; rfl⟩
+
+example : srcLookup ["H2", "He", "H2O", "CH4"] ["H2O", "CH4"] [[1], [2], [3], [4]] "H2O" = Except.ok [3] ∧
+    srcLookup ["H2", "He", "H2O", "CH4"] ["H2O", "CH4"] [[1], [2], [3], [4]] "He" = Except.ok [2] ∧
+    srcLookup ["H2", "He", "H2O", "CH4"] ["H2O", "CH4"] [[1], [2], [3], [4]] "CO" = Except.error "KeyError" := by
+  decide
 
 /-! ### end to end -/
 
